@@ -9,7 +9,7 @@ ms=json.load(open(sys.argv[1]))
 for i,m in enumerate(ms):
     json.dump(m,open(f"{sys.argv[2]}/{i:03d}.json","w"))
 PY
-ls $T/*.json | xargs -P $P -I{} sh -c '/verif/bin/xkvlint -prop matrix -repo ${XKV_REPO:-/repo} -overlay {} > {}.out 2>&1; echo $? > {}.rc'
+ls $T/*.json | xargs -P $P -I{} sh -c '${XKV_BIN:-/verif/bin/xkvlint} -prop matrix -repo ${XKV_REPO:-/repo} -overlay {} > {}.out 2>&1; echo $? > {}.rc'
 python3 - "$T" <<'PY'
 import json,sys,glob,re
 bad=0
